@@ -681,6 +681,10 @@ def elem_facts(I, xs, elem):
     if ent is not None:
         facts.append(ent(elem))
     facts.append(V.vcontains(xs, elem))
+    # nested lists of the element: make their element facts available too
+    from .shapes import _guarded_on_assume
+    for g, sh in I.ctx.__dict__.get("elem_shape_objs", {}).get(z3.simplify(xs).get_id(), []):
+        _guarded_on_assume(I.ctx, sh, elem, g)
     return facts
 
 
@@ -981,8 +985,10 @@ def dict_method(I, t, name, args, kwargs):
         return MDict(t)
     if name == "items":
         return SV(V.VList(d))
-    if name in ("keys", "values"):
-        raise Unsupported(f"dict.{name}() on symbolic dict")
+    if name == "keys":
+        return SV(V.VList(D_KEYS(d)))
+    if name == "values":
+        return SV(V.VList(D_VALUES(d)))
     raise Unsupported(f"dict.{name} on symbolic dict")
 
 
@@ -1028,6 +1034,8 @@ d_remove = V._recfun("d_remove", [V.VL, V.Val, V.VL],
 
 
 d_update = V.d_update
+D_KEYS = V._recfun("d_keys", [V.VL, V.VL], lambda f, l: z3.If(V.is_VNil(l), V.VNil, V.VCons(V.pkey(V.hd(l)), f(V.tl(l)))))
+D_VALUES = V._recfun("d_values", [V.VL, V.VL], lambda f, l: z3.If(V.is_VNil(l), V.VNil, V.VCons(V.pval(V.hd(l)), f(V.tl(l)))))
 
 
 def mlist_method(I, recv, name, args, kwargs):
@@ -1044,6 +1052,10 @@ def mlist_method(I, recv, name, args, kwargs):
         return SV(V.VInt(V.vl_index(V.vl(recv.t), x)))
     if name == "copy":
         return MList(recv.t)
+    if name == "sort" and not args and not kwargs:
+        _used("list.sort(): uninterpreted py_sorted(list)")
+        recv.t = V.VList(PY_SORTED(V.vl(recv.t)))
+        return None
     raise Unsupported(f"list.{name} on symbolic list")
 
 
